@@ -56,6 +56,8 @@ def run(ctx):
   # results are indexed by the position of the artifact in the list that was searched: lists of different length raise IndexError (shared with C02)
   rule_invert(ctx)
   ctx.expect("R-C18-INVERT", 2, "affine Add and Double")
+  rule_shift(ctx)
+  ctx.expect("R-C18-SHIFT", 2, "TransformOrderLen and the comb offsets")
   from . import c02
   ctx.borrow(c02.rule_align, "R-C18-ALIGN")
   ctx.expect("R-C18-ALIGN", 4, "four Check bodies consuming a batched search")
@@ -530,3 +532,72 @@ def boolean_valued(v):
   if a.kind == "ite" and len(a.args) == 3:
     return boolean_valued(a.args[1]) and boolean_valued(a.args[2])
   return False
+
+
+# ------------------------------------------------------------------ SHIFT: no negative shift count from two independent runtime quantities
+def rule_shift(ctx):
+  """`x >> e` / `x << e` raises ValueError for e < 0.  Counts that are a difference of two independent runtime quantities (hash length minus order
+  length) must be guarded by a comparison that makes them non-negative on the path, or be the index of a range loop that stays >= 0.
+  Counts `atom - constant` (bit_length() - 64, psize - 1) are bounded below by the property's own hypotheses and are not judged."""
+  R = "R-C18-SHIFT"
+  repo = ctx.repo
+  from .c12 import canon_le
+  n_sites = 0
+  for fn in repo.all_funcs(include_examples=False):
+    if fn.where.startswith("randomness_tests.") or fn.module.short.endswith("_test"):
+      continue
+    if not any(isinstance(x, (ast.LShift, ast.RShift)) for x in ast.walk(fn.node)):
+      continue
+    w = sym.Walker(repo, fn)
+    try:
+      w.run()
+    except Incomplete:
+      continue
+    # values of range-loop variables that are non-negative by construction
+    safe = []
+    for info in w.loop_info.values():
+      for vis in info["visits"]:
+        if vis["iter"] is None or isinstance(vis["iter"], (Seq, Const, tuple)):
+          continue
+        ra = as_poly(vis["iter"]).as_atom()
+        if ra is None or ra.kind != "range":
+          continue
+        k = as_poly(vis["k"])
+        a = ra.args
+        if len(a) == 3 and as_poly(a[2]).as_int() == -1 and as_poly(a[1]).as_int() is not None and as_poly(a[1]).as_int() >= -1:
+          safe.append(as_poly(a[0]) - k)
+        elif len(a) == 1:
+          safe.append(k)
+        elif len(a) >= 2 and as_poly(a[0]).as_int() is not None and as_poly(a[0]).as_int() >= 0 and (len(a) == 2 or (as_poly(a[2]).as_int() or 0) > 0):
+          safe.append(as_poly(a[0]) + k * (as_poly(a[2]) if len(a) == 3 else 1))
+    seen = {}
+    for e in w.events:
+      vals = [e.data.get(k_) for k_ in ("value", "rhs")] + (list(e.data.get("args", [])) if e.kind == "call" else [])
+      for v in vals:
+        if not isinstance(v, Poly):
+          continue
+        for at in v.all_atoms():
+          if at.kind not in ("shr", "shl"):
+            continue
+          c = as_poly(at.args[1])
+          tops = [(mono, co) for mono, co in c.t.items() if mono]
+          if len(tops) < 2 or not (any(co > 0 for m_, co in tops) and any(co < 0 for m_, co in tops)):
+            continue
+          key = (getattr(e.node, "lineno", 0), repr(c))
+          proved = any((c - s_).is_zero() for s_ in safe)
+          if not proved:
+            for fc in e.facts:
+              cl = canon_le(fc) if fc[0] == "cmp" and fc[1] in ("Lt", "LtE", "Gt", "GtE") else None
+              if cl is not None and (cl[0] + (c - const_of(c))).is_zero() and cl[1] + const_of(c) <= 0:
+                proved = True        # -(c - c0) <= b  with  b + c0 <= 0   =>   c >= 0
+          seen[key] = seen.get(key, True) and proved
+    for (line, ctext), ok in sorted(seen.items()):
+      n_sites += 1
+      ctx.record(R, fn.where, "shift count %s (line %d)" % (ctext[:80], line), ok, "guarded non-negative on every path that shifts" if ok else
+                 "the count is a difference of two runtime quantities and no path condition keeps it >= 0: a negative count raises ValueError")
+  ctx.extra["difference_shift_sites"] = n_sites
+
+
+def const_of(p):
+  c = p.t.get((), 0)
+  return int(c)
